@@ -491,7 +491,7 @@ def model(m, s, fi, t, fk, args, site):
             src, dst = tys
             if norm_ty(src) == norm_ty(dst):
                 return args[0]
-            if src in INT_BITS and dst in INT_BITS and isinstance(A[0], int):
+            if (src in INT_BITS or src == "bool") and dst in INT_BITS and isinstance(A[0], int):
                 return int(A[0])
             ib = find_from_impl(m.F, src, dst)
             if ib is not None and m.policy(ib):
